@@ -613,7 +613,7 @@ class StmtMixin:
             outs += self.ex(s.orelse, c, fr)
         return outs
 
-    def havoc_for_loop(self, s, st, fr, body_stmts, extra_names=()):
+    def havoc_for_loop(self, s, st, fr, body_stmts, extra_names=(), bind=None):
         """Havoc everything the loop body may modify; found by a dry run."""
         names = assigned_names(body_stmts) | set(extra_names)
         # dry run to find modified heap keys
@@ -622,7 +622,10 @@ class StmtMixin:
             probe = st.copy()
             before = dict(probe.heap)
             changed = set()
-            for s2, oc in self.ex(body_stmts, probe, fr):
+            starts = [probe]
+            if bind is not None:
+                starts = [s2 for s2, oc in bind(probe) if oc is NEXT]
+            for s2, oc in [x for p0 in starts for x in self.ex(body_stmts, p0, fr)]:
                 for k, arr in s2.heap.items():
                     if k not in before or not before[k].eq(arr):
                         changed.add(k)
@@ -633,11 +636,12 @@ class StmtMixin:
             self.dry -= 1
             del self.ax_buffer[:]
         for key in changed:
-            sort = self.H.get(st.heap, key, None).sort()
-            st.heap[key] = z3.Const(fresh_name('Hl_%s_%d' % (key[0].replace('.', '_').replace('$', ''), key[1])), sort)
-        if ('$alive', 0) in changed:
-            # allocation only grows
-            pass
+            cur = self.H.get(st.heap, key, None)
+            new = z3.Const(fresh_name('Hl_%s_%d' % (key[0].replace('.', '_').replace('$', ''), key[1])), cur.sort())
+            if key[0] == '$alive':
+                r = z3.Int(fresh_name('r'))   # allocation only grows
+                st.assume(z3.ForAll([r], z3.Implies(z3.Select(cur, r), z3.Select(new, r)), patterns=[z3.Select(cur, r)]))
+            st.heap[key] = new
         for n in names:
             if n in st.env:
                 v = st.env[n]
@@ -647,7 +651,7 @@ class StmtMixin:
     def havoc_value(self, st, v, n):
         if isinstance(v, SVal):
             nv = fresh_val(v.kind, 'l_' + n)
-            st.assume(*self.type_facts(nv, v.kind, st))
+            self.tf_assume(st, self.type_facts(nv, v.kind, st))
             return nv
         if isinstance(v, LocalDict):
             return LocalDict({k: self.havoc_value(st, x, '%s_%s' % (n, k)) for k, x in v.d.items()})
@@ -699,7 +703,10 @@ class StmtMixin:
         body_st = st.copy()
         i = z3.Int(fresh_name('i'))
         tnames = assigned_names([ast.Assign(targets=[s.target], value=ast.Constant(0))])
-        self.havoc_for_loop(s, body_st, fr, s.body, tnames)
+        pj = z3.Int(fresh_name('pi'))
+        changed, _ = self.havoc_for_loop(s, body_st, fr, s.body, tnames,
+                                         bind=lambda p: self.assign(s.target, get(p, pj), p, fr))
+        self.loop_frame(body_st, changed, 'assume')
         exit_st = body_st.copy()
         body_st.assume(i >= 0, i < n)
         extra = {'_i': ops.SI(i), '_n': ops.SI(n)}
@@ -722,6 +729,7 @@ class StmtMixin:
                 for s3, oc3 in body_outs:
                     if oc3 is NEXT or oc3 is CONT:
                         self.check_inv(s3, fr, inv, idx, 'preserve', entry, {'_i': ops.SI(i + 1), '_n': ops.SI(n)})
+                        self.loop_frame(s3, changed, 'check', '%s#loop[%d]' % (fr.prefix, idx))
                     elif oc3 is BREAK:
                         s3.marks['broke_%d' % idx] = True
                         outs.append((s3, NEXT))
@@ -744,7 +752,8 @@ class StmtMixin:
         entry = st.copy()
         self.check_inv(st, fr, inv, idx, 'entry', entry, {})
         head = st.copy()
-        self.havoc_for_loop(s, head, fr, s.body)
+        changed, _ = self.havoc_for_loop(s, head, fr, s.body)
+        self.loop_frame(head, changed, 'assume')
         self.assume_inv(head, fr, inv, idx, entry, {})
         for s2, c in self.ev(s.test, head, fr):
             if is_exc(c):
@@ -756,6 +765,7 @@ class StmtMixin:
                 for s3, oc3 in self.ex(s.body, tt, fr):
                     if oc3 is NEXT or oc3 is CONT:
                         self.check_inv(s3, fr, inv, idx, 'preserve', entry, {})
+                        self.loop_frame(s3, changed, 'check', '%s#loop[%d]' % (fr.prefix, idx))
                     elif oc3 is BREAK:
                         outs.append((s3, NEXT))
                     else:
